@@ -289,7 +289,18 @@ def chain(depth, leaf=('A', 0, 0)):
 # --------------------------------------------------------------------------
 
 def run(args) -> int:
+    from vlib import ProbeError
     chk = Check(PID, args.tier, args.seed)
+    try:
+        return _run(chk, args)
+    except ProbeError as e:
+        # the implementation cannot even be imported / driven: a behavioural regression, not a tooling fault
+        chk.violation('implementation-unusable', 'the probe running the real parser/writer crashed: ' + str(e)[-400:].replace('\n', ' | '),
+                      dict(kind='probe', detail=str(e)[-3000:]), found_input=False)
+        return chk.finish()
+
+
+def _run(chk, args) -> int:
     thorough = args.tier == 'thorough'
     chk.rule = ('real writer string = model writer string; real parser(real writer(s)) = s for every sentence of the '
                 'parsers\' language (and = model parse otherwise); argstr round trip; distinct = distinct sentences '
@@ -374,11 +385,11 @@ def polish_roundtrip_cases(chk: Check, sents):
                                   f'{render_cps(r["written"])!r}, model {render_cps(m_written)!r}',
                                   dict(rep, expect_written=m_written))
                 continue
-            if r['written'] != m_written:
+            mismatch = r['written'] != m_written
+            if mismatch:
                 chk.violation('polish-ascii:writer-mismatch', f'writer on {ser}: implementation '
                               f'{render_cps(r["written"])!r}, model {render_cps(m_written)!r}',
                               dict(rep, expect_written=m_written))
-                continue
             w = tuple(r['written'])
             if rt:
                 if w in written_by and written_by[w] != ser:
@@ -394,7 +405,7 @@ def polish_roundtrip_cases(chk: Check, sents):
                 if rt and got != want:
                     chk.violation(f'polish-ascii:roundtrip:{label}', f'{ser} written as {render_cps(r["written"])!r} '
                                   f'parses ({label}) to {got[:120]!r}', dict(rep, expect=want, mode=label))
-                elif got != mod and not (label == 'declared' and not rt):
+                elif got != mod and not mismatch and not (label == 'declared' and not rt):
                     chk.violation(f'polish:model-mismatch:{label}', f'parse of {render_cps(r["written"])!r}: '
                                   f'implementation {got[:120]!r}, model {mod[:120]!r}', dict(rep, expect=mod, mode=label))
     return in_lang
